@@ -1279,15 +1279,18 @@ theorem applyKw_keeps (s : St) (c : CId) (kw : List (Name × Obj)) (vals vals' :
     · split at h
       · cases h
       · split at h
-        · cases h
+        · exact ih _ h hv
         · split at h
           · cases h
-          · exact ih _ h (aget_aset_isSome _ _ _ _ hv)
+          · split at h
+            · cases h
+            · exact ih _ h (aget_aset_isSome _ _ _ _ hv)
 
 /-- src: _setup_params keyword loop: a keyword naming a read-only Parameter is refused (unless an
 earlier keyword already failed: unknown → TypeError, invalid → ValueError) -/
 theorem applyKw_readonly {s : St} (hwf : WF s) (c : CId) (kw : List (Name × Obj)) (vals : List (Name × Obj))
-    (h : ∃ nv ∈ kw, ∃ p o q, descriptor s c nv.1 = some (p, o) ∧ s.heap[p]? = some q ∧ q.readonly = true) :
+    (h : ∃ nv ∈ kw, ∃ p o q, descriptor s c nv.1 = some (p, o) ∧ s.heap[p]? = some q ∧ q.readonly = true)
+    (hs : s.silent = []) :
     applyKw s c kw vals = .error .typeError ∨ applyKw s c kw vals = .error .valueError := by
   induction kw generalizing vals with
   | nil => obtain ⟨_, hm, _⟩ := h; cases hm
@@ -1301,6 +1304,7 @@ theorem applyKw_readonly {s : St} (hwf : WF s) (c : CId) (kw : List (Name × Obj
       split
       · rename_i hn; rw [List.getElem?_eq_none_iff] at hn; exact absurd hlt (Nat.not_lt.2 hn)
       · rename_i q hq
+        simp only [hs, List.contains_nil, Bool.and_false, Bool.false_eq_true, if_false]
         split
         · exact Or.inr rfl
         · split
